@@ -1,57 +1,160 @@
-"""Inventory: which harnesses decide which property, with the stated bounds."""
+"""Inventory: which harnesses decide which property, with the stated bounds.
+
+PROPERTIES[id] = {quick, thorough: harness names; functions; bounds; outside; assumptions;
+                  claim: text for MANIFEST level_claimed; note: trusted base / what is not decided}
+"""
 import json, os
 
 _V = os.path.dirname(os.path.dirname(os.path.abspath(__file__)))
 HARNESS_INFO = {h['name']: h for h in json.load(open(os.path.join(_V, 'harness', 'harnesses.json')))}
 
-MODELS = [
-    'daggy/petgraph replaced by /verif/models/daggy (array model: insertion-order indices, most-recent-first adjacency walks, petgraph Topo algorithm, add_edge rejects iff a path back exists); conformance-tested against the real crate',
-    'tokio::sync::mpsc / RwLock replaced by /verif/models/tokio (single task: waker registration is a flag, wake sets a global flag); conformance-tested against the real crate',
-    'one polling task; FnRef drops from other threads are drops between two polls',
-    'Kani flags --no-memory-safety-checks --no-overflow-checks: memory safety and CBMC-level arithmetic checks are not part of the claim (Rust debug overflow / bounds panics are MIR assertions and stay checked)',
-    'every solver counterexample is replayed against a native build with the REAL daggy/tokio/futures before it is reported',
-]
-STUB_VD = 'std::collections::VecDeque::{push_back, pop_front} stubbed by a FIFO ring (harness/src/stubs.rs), conformance-tested against the real VecDeque'
+M_DAGGY = 'daggy/petgraph replaced by /verif/models/daggy (array model: insertion-order indices, most-recent-first adjacency walks, petgraph Topo algorithm, add_edge rejects iff a path back exists); conformance-tested against the real crate (models/conformance)'
+M_TOKIO = 'tokio::sync::mpsc replaced by /verif/models/tokio (FIFO of <= 4 items, sender count, closed flag; ONE polling task: registering a waker is a flag, waking sets a global flag the harness executor reads); conformance-tested against the real crate'
+M_SMALLVEC = 'smallvec::SmallVec replaced by /verif/models/smallvec (<= 2 items in Option slots, insertion order)'
+M_TASK = 'one polling task; FnRef drops "from other threads" are drops between two polls (all a single receiver can observe)'
+M_FLAGS = 'Kani flags --no-memory-safety-checks --no-overflow-checks --no-assertion-reach-checks: memory safety and CBMC-level arithmetic checks are not part of the claim (Rust debug overflow / bounds / unwrap panics are MIR assertions and stay checked); unwinding assertions are on'
+M_REPLAY = 'a failed assertion is reported as VIOLATION only after its solver counterexample reproduced natively (dev and release) against the REAL daggy/tokio/futures (harness-real)'
+M_REPINV = 'run-side harnesses start from a FnGraph assembled by the verif_hooks from-parts hook that satisfies the representation invariant (scheduling structures = edges of graph, reversed copy, degrees over all edge kinds, acyclic, every conflicting pair joined by a path); that invariant is what the build-side harnesses (augment*, counts*) establish'
+STUB_VD = 'std::collections::VecDeque::{push_back, pop_front} stubbed (kani::stub) by a FIFO ring with the same contract (harness/src/stubs.rs)'
+NOT_ASYNC = 'NOT decided: the eight deep async bodies (fold_async*, try_fold_async*, for_each_concurrent*, try_for_each_concurrent* and wrappers). Kani lowers every async state machine to a union and CBMC rewrites the whole root future on each write; for_each_concurrent on the EMPTY graph did not leave symbolic execution in 30 min (DESIGN.md section 2).'
 
-STREAM_FUNCS = ['FnGraph::stream_with', 'FnGraph::stream_internal (poll_fn closure)', 'stream_setup_init', 'fns_no_predecessors(_preload)', 'FnRef::drop', 'EdgeCounts accessors']
+STREAM_FUNCS = ['FnGraph::stream_with', 'FnGraph::stream_internal (the poll_fn closure)', 'stream_setup_init', 'fns_no_predecessors', 'fns_no_predecessors_preload', 'FnRef::drop', 'FnRef::deref', 'EdgeCounts::{incoming,outgoing}']
+AUG_FUNCS = ['DataEdgeAugmenter::augment (via verif_hooks::augment)', 'DataAccessDyn::{borrows,borrow_muts} as called by it']
 
+S2F = ['stream2_s%02d_f' % i for i in range(3)]
 S2 = ['stream2_s%02d_%s' % (i, d) for i in range(3) for d in 'fr']
 S3 = ['stream3_s%02d_%s' % (i, d) for i in range(25) for d in 'fr']
-# shapes with a join or a fork in the walked direction first (the minimal counterexamples live there)
-S3_QUICK = ['stream3_s04_f', 'stream3_s12_r']
+SQ3 = ['streamq3_s04_f', 'streamq3_s12_r']          # join forward, fork reversed (= join in walk order)
+SQ3_ALL = ['streamq3_s%02d_%s' % (i, d) for i in (4, 12, 10, 13) for d in 'fr']
+STREAM_QUICK = S2F + SQ3
+STREAM_THOROUGH = S2 + SQ3_ALL + S3 + ['stream_sym_n2']
+AUG_QUICK = ['augment_n2', 'augment3_s04']
+AUG_MID = ['augment_n2', 'augment3_s04', 'augment3_s09', 'augment3_s11']
+AUG_ALL = ['augment_n2'] + ['augment3_s%02d' % i for i in range(25)]
+
+STREAM_BOUNDS = {
+    'graphs': 'quick: all 3 labelled DAGs on 2 functions (forward) + the join (0->2,1->2 forward) and the fork (0->1,0->2 walked in reverse) on 3 functions; thorough: all 25 labelled DAGs on 3 functions and all 3 on 2, each forward and reverse, plus a fully symbolic 2-function graph (symbolic edges, kinds and order)',
+    'conflicts': 'symbolic: any symmetric relation in which every conflicting pair is joined by a path',
+    'consumer': 'symbolic: 2n+1 poll_next calls (quick n=3: 2n-1), before each poll up to n (quick n=3: 2) drops of symbolically chosen held FnRefs, i.e. any number in any order between two polls; stream dropped with refs still held, refs dropped afterwards',
+    'unwind': 'n+1 (all loops, unwinding assertions on)',
+}
+STREAM_OUT = ['more than 3 functions; graphs on 3 functions are enumerated concretely (all 25), not symbolic: a fully symbolic 3-function graph needs > 40 GB', 'more polls than stated', 'real tokio internals (threads, memory ordering, cooperative budget)', 'stream_interruptible / stream_with_interruptible (harness not built yet)']
 
 PROPERTIES = {
+    'C01': {
+        'quick': AUG_QUICK + STREAM_QUICK,
+        'thorough': AUG_ALL + STREAM_THOROUGH,
+        'functions': AUG_FUNCS + STREAM_FUNCS,
+        'bounds': dict(STREAM_BOUNDS, build='augment: symbolic 2-function user graph (every ordered pair absent/Logic/Contains) and all 25 user graphs on 3 functions (quick: the join), access declarations symbolic: 2 data types x {none, read, write} per function'),
+        'outside': STREAM_OUT + [NOT_ASYNC, 'predecessor counts / structure copies of build() (RepInv) are assumed on the run side, not yet decided by a harness'],
+        'assumptions': [M_DAGGY, M_TOKIO, M_SMALLVEC, M_TASK, M_REPINV, M_FLAGS, M_REPLAY],
+        'claim': 'Composition, each link a solver-decided assertion: (a) build side - after DataEdgeAugmenter::augment every pair of functions with conflicting access (predicate written from the property text) is joined by a directed path; (b) run side, stream()/stream_with() - over any graph in which conflicting pairs are joined by a path, no function is yielded while a conflicting one is held, for every consumer schedule in the bound. Covers the stream family only.',
+        'note': 'for_each_concurrent*/try_for_each_concurrent* are out of reach of the solver here (deep async); a change that sends done early in those bodies is not detected.',
+    },
+    'C02': {
+        'quick': STREAM_QUICK,
+        'thorough': STREAM_THOROUGH,
+        'functions': STREAM_FUNCS,
+        'bounds': STREAM_BOUNDS,
+        'outside': STREAM_OUT + [NOT_ASYNC],
+        'assumptions': [M_DAGGY, M_TOKIO, M_TASK, M_REPINV, M_FLAGS, M_REPLAY],
+        'claim': 'stream()/stream_with(), forward and reverse: at the moment a FnRef is yielded every direct predecessor in the walked direction has been yielded and dropped (hence transitively), for every graph, order and consumer schedule in the bound.',
+        'note': 'fold_async*/try_fold_async*/for_each_concurrent*/try_for_each_concurrent* not decided (deep async, see DESIGN.md).',
+    },
+    'C03': {
+        'quick': STREAM_QUICK,
+        'thorough': STREAM_THOROUGH,
+        'functions': STREAM_FUNCS,
+        'bounds': STREAM_BOUNDS,
+        'outside': STREAM_OUT + [NOT_ASYNC, 'graphs wider than 3 roots: a ready/done channel sized by a constant >= 3 is not detectable'],
+        'assumptions': [M_DAGGY, M_TOKIO, M_TASK, M_REPINV, M_FLAGS, M_REPLAY],
+        'claim': 'stream()/stream_with(): no function id is yielded twice, only ids of the graph are yielded, and when the stream ends every function was yielded exactly once.',
+        'note': 'fold / for_each families not decided (deep async).',
+    },
     'C05': {
-        'quick': S2 + S3_QUICK,
-        'thorough': S2 + S3 + ['stream_sym_n2'],
+        'quick': STREAM_QUICK,
+        'thorough': STREAM_THOROUGH,
         'attribute_panics': True,
         'functions': STREAM_FUNCS,
-        'bounds': {'graphs': 'quick: all 3 labelled DAGs on 2 functions + V-join and fork on 3; thorough: all 25 labelled DAGs on 3 functions (concrete shapes) and a fully symbolic 2-function graph', 'order': 'forward and reverse', 'consumer': 'symbolic: 2n+2 poll_next calls, before each up to n drops of symbolically chosen held FnRefs (any number, any order), stream dropped before or after the remaining refs', 'unwind': 5},
-        'outside': ['more than 3 functions', 'more than 2n+2 polls', 'real tokio internals (threads, memory ordering)'],
-        'assumptions': MODELS,
+        'bounds': STREAM_BOUNDS,
+        'outside': STREAM_OUT,
+        'assumptions': [M_DAGGY, M_TOKIO, M_TASK, M_REPINV, M_FLAGS, M_REPLAY],
+        'claim': 'All clauses for stream()/stream_with(): whenever poll_next returns Pending with no wake-up signalled every unyielded function still has an undropped/unyielded predecessor; None is returned exactly after all functions were yielded (and again afterwards); no panic for any order of FnRef / stream drops. The solver found the stall of the unfixed code (F1 in known_findings.json) with this check.',
+        'note': 'stream_interruptible variants not covered yet; wake-ups are decided over the channel contract model, not over tokio internals.',
+    },
+    'C06': {
+        'quick': AUG_QUICK + STREAM_QUICK,
+        'thorough': AUG_ALL + STREAM_THOROUGH,
+        'functions': AUG_FUNCS + STREAM_FUNCS,
+        'bounds': dict(STREAM_BOUNDS, build='augment: as for C01'),
+        'outside': STREAM_OUT + [NOT_ASYNC],
+        'assumptions': [M_DAGGY, M_TOKIO, M_SMALLVEC, M_TASK, M_REPINV, M_FLAGS, M_REPLAY],
+        'claim': '(a) build side: every edge of the augmented graph that the user did not add has kind Data and joins two functions with conflicting access (read-read sharing yields no edge); (b) stream()/stream_with(): at every idle point every function whose predecessors were all dropped has been yielded.',
+        'note': 'for_each_concurrent*/try_for_each_concurrent* idle points not decided (deep async).',
+    },
+    'C11': {
+        'quick': AUG_MID,
+        'thorough': AUG_ALL,
+        'attribute_panics': True,
+        'functions': AUG_FUNCS,
+        'bounds': {'graphs': 'symbolic 2-function user graph; user graphs on 3 functions enumerated (quick: join, chain, 0->1 + 2->1; thorough: all 25)', 'access': 'symbolic: 2 data types x {none, read, write} per function', 'ranks': 'the longest-chain reference that the C13 harness proves equal to RankCalc::calc', 'unwind': 6},
+        'outside': ['more than 3 functions, more than 2 data types', 'build() as a whole (rank -> augment -> counts -> copies in one call) is not executed in one harness: the stages are decided separately', 'structure copies and predecessor counts (no harness yet)'],
+        'assumptions': [M_DAGGY, M_SMALLVEC, M_FLAGS, M_REPLAY],
+        'claim': 'DataEdgeAugmenter::augment never panics (update_edge().expect is an assertion), keeps every function under its id and every user edge with its kind, adds only Data edges, leaves the graph acyclic without duplicate edges, joins every conflicting pair by a path and adds a Data edge only between conflicting functions.',
+        'note': 'decided for the augmentation stage from arbitrary user graphs; the composition inside build() is by reading (4 consecutive calls).',
+    },
+    'C12': {
+        'quick': AUG_MID,
+        'thorough': AUG_ALL,
+        'functions': AUG_FUNCS,
+        'bounds': {'graphs': 'as C11', 'access': 'as C11', 'unwind': 6},
+        'outside': ['more than 3 functions / 2 data types', 'the determinism clause (building twice yields == graphs; one change yields !=) and FnGraph::eq: no harness yet'],
+        'assumptions': [M_DAGGY, M_SMALLVEC, M_FLAGS, M_REPLAY],
+        'claim': 'Conflicting functions not ordered by user edges end up ordered lower rank first, then insertion order; no Data edge duplicates a user edge or is implied by a path that avoids it.',
+        'note': 'the build-twice / PartialEq clause is not decided.',
     },
     'C13': {
         'quick': ['rank_n3'],
         'thorough': ['rank_n2', 'rank_n3', 'rank_n4'],
-        'functions': ['RankCalc::calc', 'RankCalc::is_root_node'],
-        'bounds': {'graphs': 'symbolic: every ordered pair of n functions is absent / Logic / Contains, cyclic choices rejected by the graph; n = 3 (quick), n = 2..4 (thorough)', 'unwind': '2^(n-1)+2'},
-        'outside': ['more than 4 functions', 'access declarations (rank calculation never reads them; C12 harness B2 takes ranks as input)'],
-        'assumptions': MODELS[:1] + MODELS[3:] + [STUB_VD],
-    },
-    'C18': {
-        'quick': ['rank_n3', 'rank_n4'],
-        'thorough': ['rank_n3', 'rank_n4', 'rank_n5'],
-        'functions': ['RankCalc::calc (queue pops counted by the verif_hooks counter)'],
-        'bounds': {'graphs': 'symbolic as for C13; n = 3, 4 (quick), n = 5 (thorough; the smallest size at which walking every path exceeds n visits)', 'unwind': '2^(n-1)+2'},
-        'outside': ['more than 5 functions', 'work of the other build stages (bounded loops by inspection of their loop structure is not a solver claim)'],
-        'assumptions': MODELS[:1] + MODELS[3:] + [STUB_VD],
+        'attribute_panics': True,
+        'functions': ['RankCalc::calc', 'RankCalc::is_root_node (via verif_hooks::rank_calc)'],
+        'bounds': {'graphs': 'symbolic: every ordered pair of n functions is absent / Logic / Contains (cyclic choices rejected by the graph, as the builder does); n = 3 (quick), n = 2..4 (thorough)', 'unwind': '2^(n-1)+2'},
+        'outside': ['more than 4 functions', 'ranks() of build() = this stage by reading (build stores the vector unchanged)'],
+        'assumptions': [M_DAGGY, STUB_VD, M_FLAGS, M_REPLAY],
+        'claim': 'For every DAG in the bound RankCalc::calc returns, for every function, the length of the longest chain of user edges ending at it (reference: n rounds of relaxation over the same symbolic edges).',
+        'note': 'VecDeque is stubbed; access declarations cannot influence the result because the stage never reads them.',
     },
     'C16': {
         'quick': ['builder_n3', 'builder_batch_n3'],
         'thorough': ['builder_n2', 'builder_batch_n2', 'builder_n3', 'builder_batch_n3'],
         'functions': ['FnGraphBuilder::add_fn', 'add_logic_edge', 'add_contains_edge', 'add_logic_edges', 'add_contains_edges'],
-        'bounds': {'calls': '4 symbolic calls (kind, from, to) over 3 functions incl. self-edges, repeats, reversed pairs; batch forms: one edge then a symbolic batch of two', 'unwind': 8},
-        'outside': ['more than 3 functions / 4 calls', 'the cycle test inside daggy itself (modelled; conformance-tested)'],
-        'assumptions': MODELS[:1] + MODELS[3:],
+        'bounds': {'calls': '4 symbolic calls (kind, from, to) over 3 functions incl. self-edges, repeats, reversed pairs; batch forms: one edge, then a symbolic batch of two edges of a symbolic kind', 'unwind': 8},
+        'outside': ['more than 3 functions / 4 calls', 'the cycle test inside daggy itself (modelled; conformance-tested against the real crate)'],
+        'assumptions': [M_DAGGY, M_FLAGS, M_REPLAY],
+        'claim': 'After every call: Err exactly when the reference closure of the accepted edges has a path back (self-edge included); accepted edges keep their ids and order; at most one edge per ordered pair, last kind wins; batch forms stop at the first rejected edge and keep the earlier ones.',
+        'note': 'decides fn_graph\'s use of daggy (update_edge vs add_edge, argument order, kinds); daggy\'s reachability is trusted.',
     },
+    'C18': {
+        'quick': ['rank_n3', 'rank_fwd_n4'],
+        'thorough': ['rank_n3', 'rank_n4', 'rank_fwd_n4'],
+        'functions': ['RankCalc::calc with the verif_hooks pop counter'],
+        'bounds': {'graphs': 'symbolic as for C13; n = 3 (all ordered pairs) and n = 4 (forward pairs; thorough: all ordered pairs)', 'unwind': '2^(n-1)+2'},
+        'outside': ['n >= 5: the smallest size at which walking every path exceeds n visits per function (2^(n-2) = 8 > 5) exhausts the solver memory here (2.0 M program steps, > 30 GB); see DESIGN.md C18', 'work of the other build stages'],
+        'assumptions': [M_DAGGY, STUB_VD, M_FLAGS, M_REPLAY],
+        'claim': 'For every DAG in the bound no function is popped from the rank queue more often than there are functions.',
+        'note': 'At n <= 4 the path-walking algorithm still meets the bound (4 pops of the last node of the complete DAG); the refuting size n = 5 is outside what the solver finished. The check therefore confirms the bound only where the current code meets it.',
+    },
+}
+
+NOT_APPLICABLE = {
+    'C04': 'fold_async*/try_fold_async*/for_each_concurrent*/try_for_each_concurrent* are deep async state machines: Kani lowers them to nested unions and CBMC did not finish symbolic execution of a single call on the EMPTY graph within 30 min (DESIGN.md section 2); the property is entirely about those calls.',
+    'C07': 'failure handling lives in the try_for_each_concurrent*/try_fold_async* bodies (deep async, out of reach of CBMC here, DESIGN.md section 2).',
+    'C08': 'interruption handling of the fold/for_each calls is deep async (out of reach); the stream_interruptible clause has no harness yet.',
+    'C09': 'StreamOutcome is produced only by the fold/for_each calls (deep async, out of reach); unit harnesses for StreamOutcome::new / poll_and_track_fn_ready not built yet.',
+    'C10': 'the limit is enforced by StreamExt::for_each_concurrent inside the deep async bodies; there is no fn_graph code outside them to execute symbolically.',
+    'C14': 'no harness yet (sequential iteration over the Topo model).',
+    'C15': 'no harness yet (re-run of stream()).',
+    'C17': 'no harness yet (GraphInfo::from_graph); the serialisation clause is out of reach (serde_yaml string processing).',
+    'C19': 'auto-trait membership (Send/Sync) of opaque types is decided by rustc\'s trait solver at type-check time: there is no execution, input or schedule to make symbolic and no SMT query whose verdict answers it.',
+    'C20': 'no harness yet (two interleaved streams).',
 }
